@@ -27,6 +27,7 @@ from unified_planning.model.expression import Expression
 from functools import partial
 from unified_planning.engines.compilers.grounder import Grounder
 from unified_planning.engines.compilers.utils import (
+    get_fresh_name,
     lift_action_instance,
 )
 from typing import List, Dict, Tuple, Optional
@@ -162,7 +163,7 @@ class TrajectoryConstraintsRemover(engines.engine.Engine, CompilerMixin):
         # trajectory_constraints can contain quantifiers and need to be remove
         relevancy_dict = self._build_relevancy_dict(env, C)
         A_prime: List["up.model.InstantaneousAction"] = list()
-        I_prime, F_prime = self._get_monitoring_atoms(env, C, I)
+        I_prime, F_prime = self._get_monitoring_atoms(env, C, I, new_problem)
         G_prime = env.expression_manager.And(
             [self._monitoring_atom_dict[c] for c in self._get_landmark_constraints(C)]
         )
@@ -362,7 +363,7 @@ class TrajectoryConstraintsRemover(engines.engine.Engine, CompilerMixin):
         else:
             return None, constr.args[0].substitute(init_values).simplify()
 
-    def _get_monitoring_atoms(self, env, C, I):
+    def _get_monitoring_atoms(self, env, C, I, problem):
         monitoring_atoms = []
         monitoring_atoms_counter = 0
         initial_state_prime = []
@@ -375,7 +376,11 @@ class TrajectoryConstraintsRemover(engines.engine.Engine, CompilerMixin):
             else:
                 type, init_state_value = self._evaluate_constraint(env, constr, I)
                 fluent = up.model.Fluent(
-                    f"{type}{SEPARATOR}{monitoring_atoms_counter}",
+                    get_fresh_name(
+                        problem,
+                        f"{type}{SEPARATOR}{monitoring_atoms_counter}",
+                        used_names=[f.name for f in monitoring_atoms],
+                    ),
                     env.type_manager.BoolType(),
                 )
                 monitoring_atoms.append(fluent)
